@@ -1,5 +1,7 @@
 """C14 - exporting never changes the matrix and is deterministic."""
 import copy as pycopy
+import decimal
+import hashlib
 import json
 import os
 import subprocess
@@ -16,13 +18,13 @@ RULE = ("case 'exp' = (matrix, ordered pair of writers (w1, w2) out of arxml, cs
         "Matrices include long names (> 32 characters), free signals, cycle times, duplicate frame names, receiver lists not yet "
         "propagated to the frames, multiplex groups with many values, attributes with definitions. quick: every ordered pair on 1 "
         "matrix per shard + random pairs; thorough: every ordered pair on 20 matrices. case 'seeds' = the same exports in "
-        "The 'seeds' case also exports every matrix in the long-running process after a variant of it (same names, other value texts, comments, units) and compares with a fresh process. The process state decoding depends on (decimal context) is compared before and after every export; comments over two lines occur. subprocesses under 6 (thorough: 12) values of PYTHONHASHSEED, always including a frame with 15 multiplex groups. One matrix in seven has a frame whose length was never set (0) although it has signals. Further configurations of the writers (options of formats.dump: csv delimiters, bit notations and attribute columns of csv/xls/json, encodings of dbc/dbf/sym, dbc without compatibility names and value tables, arxml 3, json native types) are paired with every configuration of the same format in both orders and with random configurations. Matrices also have frames of their own named VECTOR__INDEPENDENT_SIG_MSG (with and without signals without frame), the ECU name Vector__XXX as a transmitter/receiver, definitions of their own under the names the writers define (GenMsgCycleTime, VFrameFormat, GenSigStartValue, System...LongSymbol, BusType) and texts outside ASCII. 'unchanged' also compares what the matrix answers to lookups by name and identifier (frame_by_name, get_frame_by_name, frame_by_id, get_frame_by_id, ecu_by_name, for every name/identifier in the matrix, the reserved ones and all keys of the lookup dictionaries); decoding is also done through CanMatrix.decode. Every 'exp' case starts from the decimal context of a fresh interpreter. In the 'seeds' case every subprocess has its own export history (listed order, reverse order, shuffles of the (configuration, matrix) pairs) and the long-running process exports a variant with every other configuration of the same writer first. Non-trivial = every distinct case (each exercises >= 1 writer).")
+        "The 'seeds' case also exports every matrix in the long-running process after a variant of it (same names, other value texts, comments, units) and compares with a fresh process. The process state decoding depends on (decimal context) is compared before and after every export; comments over two lines occur. subprocesses under 6 (thorough: 12) values of PYTHONHASHSEED, always including a frame with 15 multiplex groups. One matrix in seven has a frame whose length was never set (0) although it has signals. Further configurations of the writers (options of formats.dump: csv delimiters, bit notations and attribute columns of csv/xls/json, encodings of dbc/dbf/sym, dbc without compatibility names and value tables, arxml 3, json native types) are paired with every configuration of the same format in both orders and with random configurations. Matrices also have frames of their own named VECTOR__INDEPENDENT_SIG_MSG (with and without signals without frame), the ECU name Vector__XXX as a transmitter/receiver, definitions of their own under the names the writers define (GenMsgCycleTime, VFrameFormat, GenSigStartValue, System...LongSymbol, BusType) and texts outside ASCII. 'unchanged' also compares what the matrix answers to lookups by name and identifier (frame_by_name, get_frame_by_name, frame_by_id, get_frame_by_id, ecu_by_name, for every name/identifier in the matrix, the reserved ones and all keys of the lookup dictionaries); decoding is also done through CanMatrix.decode. Every 'exp' case starts from the decimal context of a fresh interpreter. In the 'seeds' case every subprocess has its own export history (listed order, reverse order, shuffles of the (configuration, matrix) pairs) and the long-running process exports a variant with every other configuration of the same writer first. One number occurs in several spellings in one matrix (0.5 and 0.50, 1 and 1.00, 100 and 1E+2) and in the variants (every number respelled); the signals of a multiplexed frame are listed in any order and frames carry sym's Sendable/Receivable attributes, so that the writers visit the numbers in different orders. Every export an 'exp' case makes in the long-running process (w1, w1 on a fresh copy, w2 after w1, w2 on a fresh copy) is compared with the same export made ALONE in a fresh process (lib/export_worker.py --serve: a process that has done the imports and exported nothing forks one child per run), and a fresh process with a history of its own (variant to w1, matrix to w1, the same object to w2) is compared with them too (thorough: every case; quick: every random case and a quarter of the exhaustive pairs per shard, rotating). Non-trivial = every distinct case (each exercises >= 1 writer).")
 EXHAUSTIVE = {"quick": False, "thorough": False}
 PARTIAL = ["the writers' footprint on their argument is recorded in the model by hand (copiesFirst/normalise); that the record is complete "
            "is established only by this correspondence check - the theorems carry least here",
            "xlsx, yaml, ldf, eds writers are not importable in this environment and are outside the quantifier"]
 ASSUMPTIONS = ["matrices every listed writer accepts (no extended multiplexing)"]
-TRUSTED = ["hashlib, subprocess"]
+TRUSTED = ["hashlib, subprocess, os.fork (a forked child of a process that has only imported canmatrix counts as a fresh process)"]
 CORRESPONDENCE = "formats.dump leaves its argument's normal form unchanged == CanVerif.exportEffect (Model/Export.lean)"
 
 WRITERS = {
@@ -53,9 +55,76 @@ NOBODY = "Vector__XXX"
 RESERVED_FRAME_NAMES = [FREE_SIGNALS_FRAME]
 
 
-def gen_desc(rng, many_groups=False, common_prefix=False, own_names=False):
+def respell(text, how=0):
+    """another text of the same number (None stays None): how=0 two more decimal places (0.5 -> 0.500, 1 -> 1.00: the writers drop
+    one trailing '.0' themselves), how=1 one more place (0.5 -> 0.50), how=2 the exponent form if the number ends in zeros
+    (100 -> 1E+2), otherwise as how=1.  Equal as numbers (and as dictionary keys), different as texts."""
+    if text is None:
+        return None
+    x = decimal.Decimal(text)
+    t = x.as_tuple()
+    if how == 2 and x != 0:
+        n = x.normalize(decimal.Context(prec=60))
+        if str(n) != str(x):
+            return str(n)
+    more = (0, 0) if (how == 0 or t.exponent == 0) else (0,)
+    y = decimal.Decimal((t.sign, tuple(t.digits) + more, t.exponent - len(more)))
+    assert y == x and str(y) != str(x), (text, how)
+    return str(y)
+
+
+def variant_of(d):
+    """a matrix with the same frames, signals, names and numbers in which every text that may be written differently is written
+    differently: other comments, units and value texts, every number (factor, offset, limits) in another spelling.  Exported
+    first, it leaves behind whatever a writer keeps under a name or under a number."""
+    v = pycopy.deepcopy(d)
+    for f in v["frames"]:
+        f["comment"] = "variant"
+        for sg in f["signals"]:
+            sg["values"] = {key: val + "_variant" for key, val in sg.get("values", {}).items()}
+            sg["unit"] = "var"
+            sg["comment"] = "variant comment"
+            for key in ("factor", "offset", "min", "max"):
+                sg[key] = respell(sg.get(key), 0)
+    return v
+
+
+def gen_own(rng, **kw):
+    """the descriptions of C14's own streams"""
+    return gen_desc(rng, own_names=True, spellings=True, listing=True, **kw)
+
+
+def gen_desc(rng, many_groups=False, common_prefix=False, own_names=False, spellings=False, listing=False):
     """own_names: the caller's objects may carry names the formats reserve, definitions under the writers' names, texts outside ASCII
-    (C14's own streams ask for it; other users of this generator, C20, get the descriptions they always got)"""
+    (C14's own streams ask for it; other users of this generator, C20, get the descriptions they always got)
+    spellings: one number occurs in several spellings in one matrix (0.5 and 0.50, 1 and 1.00, 100 and 1E+2), as files have them
+    listing: the signals of a multiplexed frame are listed in any order (not by multiplexer value, the multiplexer anywhere), frames
+    carry the attributes by which sym sorts them into its SEND / RECEIVE / SENDRECEIVE sections: the writers visit the objects of
+    one matrix in different orders"""
+    d = _gen_desc(rng, many_groups, common_prefix, own_names)
+    fr = d["frames"]
+    if spellings and rng.random() < 0.6:
+        sigs = [sg for f in fr for sg in f["signals"]]
+        for sg in sigs:
+            for key in ("factor", "offset", "min", "max"):
+                if rng.random() < 0.3:
+                    sg[key] = respell(sg.get(key), rng.randrange(3))
+        if len(sigs) >= 2:
+            # ... and certainly one number in two spellings in two signals, whichever is listed first
+            a, b = rng.sample(sigs, 2)
+            if a.get("mux") != "Multiplexor" and b.get("mux") != "Multiplexor":
+                key = rng.choice(["factor", "offset"])
+                b[key] = respell(a[key], rng.randrange(3))
+    if listing:
+        for f in fr:
+            if any(sg.get("mux") == "Multiplexor" for sg in f["signals"]) and rng.random() < 0.5:
+                rng.shuffle(f["signals"])
+        if rng.random() < 0.3:
+            d["sections"] = [rng.choice([None, None, ["True", "False"], ["False", "True"], ["True", "True"]]) for _ in fr]
+    return d
+
+
+def _gen_desc(rng, many_groups=False, common_prefix=False, own_names=False):
     d = M.gen_matrix(rng, {"floats": False, "limits": True, "cycle": True, "maxframes": 4, "multiline_comments": True})
     while common_prefix and len(d["frames"]) < 2:
         d = M.gen_matrix(rng, {"floats": False, "limits": True, "cycle": True, "maxframes": 4, "multiline_comments": True})
@@ -150,6 +219,14 @@ def build(d):
                 s.add_attribute("GenSigNote", "note")
         for e in db.ecus[:1]:
             e.add_attribute("NodeLayer", "3")
+    if any(d.get("sections") or []):
+        # as the sym reader records the section of a frame
+        db.add_frame_defines("Receivable", "BOOL False True")
+        db.add_frame_defines("Sendable", "BOOL False True")
+        for f, sec in zip(db.frames, d["sections"]):
+            if sec:
+                f.add_attribute("Sendable", sec[0])
+                f.add_attribute("Receivable", sec[1])
     if d.get("own_defines"):
         db.add_frame_defines("GenMsgCycleTime", "INT 0 1000")
         db.add_frame_defines("VFrameFormat", 'ENUM "StandardCAN","ExtendedCAN","mine"')
@@ -176,26 +253,33 @@ def build(d):
 
 def gen(rng, tier, shard, nshards):
     nmat = 1 if tier == "quick" else 20 // nshards + 1
+    # "hist": the case also makes its exports in a fresh process with a history of its own (see observe).  Every case does in the
+    # thorough tier; in the quick tier every random case and, of the exhaustive pairs, one in four per shard - another quarter in
+    # the next shard, so that every ordered pair has its history on three or four matrices of a run; a case without it still compares every
+    # export of this process with the export made alone in a fresh process
+    # (the first two shards, which also run the 'seeds' case, leave the histories of the exhaustive pairs to the others)
+    def hist(i, j):
+        return tier != "quick" or nshards < 8 or (shard >= 2 and (i + j + shard) % 4 == 0)
     for _ in range(nmat):
-        d = gen_desc(rng, own_names=True)
-        for w1 in WKEYS:
-            for w2 in WKEYS:
-                yield {"op": "exp", "c": {"m": d, "w1": w1, "w2": w2}}
+        d = gen_own(rng)
+        for i, w1 in enumerate(WKEYS):
+            for j, w2 in enumerate(WKEYS):
+                yield {"op": "exp", "c": {"m": d, "w1": w1, "w2": w2, "hist": hist(i, j)}}
     for _ in range({"quick": 60, "thorough": 600}[tier] // nshards + 1):
-        yield {"op": "exp", "c": {"m": gen_desc(rng, own_names=True), "w1": rng.choice(WKEYS), "w2": rng.choice(WKEYS)}}
+        yield {"op": "exp", "c": {"m": gen_own(rng), "w1": rng.choice(WKEYS), "w2": rng.choice(WKEYS)}}
     # the other configurations of the writers: every ordered pair of configurations of one format (one of them not the plain one) on
     # one matrix, and random pairs of any two configurations
     for _ in range(nmat):
-        d = gen_desc(rng, own_names=True)
-        for w1 in CKEYS:
-            for w2 in [w1] + SIBLINGS[w1]:
+        d = gen_own(rng)
+        for i, w1 in enumerate(CKEYS):
+            for j, w2 in enumerate([w1] + SIBLINGS[w1]):
                 if w1 in VARIANTS or w2 in VARIANTS:
-                    yield {"op": "exp", "c": {"m": d, "w1": w1, "w2": w2}}
+                    yield {"op": "exp", "c": {"m": d, "w1": w1, "w2": w2, "hist": hist(i, j)}}
     for _ in range({"quick": 60, "thorough": 600}[tier] // nshards + 1):
         w1 = rng.choice(CKEYS)
-        yield {"op": "exp", "c": {"m": gen_desc(rng, own_names=True), "w1": w1, "w2": rng.choice(CKEYS if w1 in VARIANTS else sorted(VARIANTS))}}
+        yield {"op": "exp", "c": {"m": gen_own(rng), "w1": w1, "w2": rng.choice(CKEYS if w1 in VARIANTS else sorted(VARIANTS))}}
     if shard < 2:
-        ms = [gen_desc(rng, many_groups=(k == 0), common_prefix=(k == 1), own_names=True) for k in range(3 if tier == "quick" else 10)]
+        ms = [gen_own(rng, many_groups=(k == 0), common_prefix=(k == 1)) for k in range(3 if tier == "quick" else 10)]
         # seeds 19, 23, 40 give three further iteration orders of {'Multiplexor', 0, 1, 2, 3, 5, …, 233} on CPython 3.12 (found by search)
         seeds = [0, 19, 23, 40, 7, 31] if tier == "quick" else [0, 19, 23, 40, 7, 31, 35, 47, 51, 54, 59, 1]
         if shard == 1:
@@ -215,7 +299,7 @@ def neighbours(case, rng, shard, nshards):
     if case["op"] != "exp":
         return
     for _ in range(40 // nshards + 1):
-        yield {"op": "exp", "c": {"m": gen_desc(rng, own_names=True), "w1": case["c"]["w1"], "w2": case["c"]["w2"]}}
+        yield {"op": "exp", "c": {"m": gen_own(rng), "w1": case["c"]["w1"], "w2": case["c"]["w2"]}}
         yield {"op": "exp", "c": {"m": case["c"]["m"], "w1": case["c"]["w1"], "w2": rng.choice(CKEYS)}}
 
 
@@ -278,10 +362,50 @@ def process_state():
     return [ctx.prec, ctx.rounding, ctx.Emin, ctx.Emax, ctx.capitals, ctx.clamp, sorted(str(t) for t, on in ctx.traps.items() if on)]
 
 
+WORKER = os.path.join(os.path.dirname(os.path.dirname(os.path.abspath(__file__))), "lib", "export_worker.py")
+_FRESH = {}
+_ALONE = {}
+
+
+def fresh_runs(ms, runs, text=False):
+    """every run (a list of steps [index into ms, configuration key]) made in a process of its own that has exported nothing before
+    (lib/export_worker.py --serve forks one child per run from a process that has only done the imports); per run the sha256 (or the
+    text) of every export, 'EXC:<type>' where it raised.  Within a run one matrix index is one object."""
+    from lib.core import Infra
+    me = os.getpid()
+    z = _FRESH.get(me)
+    for attempt in (0, 1):
+        if z is None or z.poll() is not None:
+            # (own interpreter, own hash seed: what is compared with this process must not depend on either)
+            z = subprocess.Popen([sys.executable, WORKER, "--serve"], stdin=subprocess.PIPE, stdout=subprocess.PIPE, stderr=subprocess.DEVNULL,
+                                 env=dict(os.environ, PYTHONHASHSEED="0", PYTHONDONTWRITEBYTECODE="1"))
+            _FRESH[me] = z
+        try:
+            z.stdin.write((json.dumps({"ms": ms, "runs": runs, "text": text}) + "\n").encode())
+            z.stdin.flush()
+            line = z.stdout.readline()
+        except OSError:
+            line = b""
+        if line:
+            return json.loads(line.decode())
+        z.kill()
+        z = None
+    raise Infra("C14: the export server (lib/export_worker.py --serve) does not answer")
+
+
+def first_difference(a, b):
+    la, lb = a.split("\n"), b.split("\n")
+    for k in range(max(len(la), len(lb))):
+        x, y = (la[k] if k < len(la) else None), (lb[k] if k < len(lb) else None)
+        if x != y:
+            return {"line": k + 1, "alone in a fresh process": None if x is None else x[:200], "here": None if y is None else y[:200]}
+    return None
+
+
 def observe(case):
     c = case["c"]
     if case["op"] == "seeds":
-        worker = os.path.join(os.path.dirname(os.path.dirname(os.path.abspath(__file__))), "lib", "export_worker.py")
+        worker = WORKER
         results = []
         for seed in c["seeds"]:
             env = dict(os.environ, PYTHONHASHSEED=str(seed), PYTHONDONTWRITEBYTECODE="1")
@@ -293,16 +417,8 @@ def observe(case):
         differs = sorted({w for r in results[1:] for w in r if r[w] != results[0][w]})
         # ... and on nothing the process exported before: in this (long-running) process a variant of each matrix (same names,
         # other value texts, comments and lengths) is exported first, then the matrix itself; a fresh process exported only the matrix
-        import copy as pycopy
-        import hashlib
         for k, d in enumerate(c["ms"]):
-            v = pycopy.deepcopy(d)
-            for f in v["frames"]:
-                f["comment"] = "variant"
-                for sg in f["signals"]:
-                    sg["values"] = {key: val + "_variant" for key, val in sg.get("values", {}).items()}
-                    sg["unit"] = "var"
-                    sg["comment"] = "variant comment"
+            v = variant_of(d)
             for key, (fmt, opts) in (CONFIGS if "orders" in c else WRITERS).items():
                 try:
                     M.export_bytes(build(v), fmt, **opts)
@@ -322,7 +438,6 @@ def observe(case):
     # every case starts from the process state of a fresh interpreter, so that an export that changes it is seen in every case in
     # which it is the first export, not only in the first such case of the process (what an earlier case left behind must not decide
     # whether this one sees a change; the 'seeds' case keeps whatever the process has accumulated)
-    import decimal
     decimal.setcontext(decimal.Context(prec=28, rounding=decimal.ROUND_HALF_EVEN, Emin=-999999, Emax=999999, capitals=1, clamp=0, flags=[],
                                        traps=[decimal.InvalidOperation, decimal.DivisionByZero, decimal.Overflow]))
     db = build(c["m"])
@@ -339,7 +454,39 @@ def observe(case):
     fresh = build(c["m"])
     b2_fresh = M.export_bytes(fresh, f2, **o2)
     b1_again = M.export_bytes(build(c["m"]), f1, **o1)
-    r = {"unchanged": before == after, "second_same": b2 == b2_fresh, "twice_same": b1 == b1_again, "decode_same": dec_before == dec_after and ctx_before == ctx_after}
+    # ... and against processes that have exported nothing else: what this (long-running) process has exported before, for other
+    # cases, and what it keeps from it, must not show either.  "alone": one export, the first of its process.  "history": a process
+    # that exports a variant of the matrix (same names and numbers, every text and every number written differently) to w1, then
+    # the matrix itself to w1, then (the same object) to w2.
+    ms = [c["m"], variant_of(c["m"])]
+    history = [[1, c["w1"]], [0, c["w1"]], [0, c["w2"]]]
+    with_history = c.get("hist", True)
+    mkey = hashlib.sha256(json.dumps(c["m"], sort_keys=True).encode()).hexdigest()
+    need = [w for w in sorted({c["w1"], c["w2"]}) if (mkey, w) not in _ALONE]
+    runs = ([history] if with_history else []) + [[[0, w]] for w in need]
+    res = ([] if with_history else [[]]) + (fresh_runs(ms, runs) if runs else [])
+    if len(_ALONE) > 4000:
+        _ALONE.clear()
+    for w, out in zip(need, res[1:]):
+        _ALONE[(mkey, w)] = out[0]
+    alone1, alone2 = _ALONE[(mkey, c["w1"])], _ALONE[(mkey, c["w2"])]
+
+    def sha(b):
+        return hashlib.sha256(b).hexdigest()
+    # (name of the comparison: [equal?, which text is compared with the export made alone (for the report)])
+    across = {"w2 after w1 of a variant and w1 of the matrix, in a fresh process": [not with_history or res[0][2] == alone2, lambda: fresh_runs(ms, [history], text=True)[0][2]],
+              "w2 after w1 in this process": [sha(b2) == alone2, lambda: b2.decode("latin-1")],
+              "w2 of a fresh copy in this process": [sha(b2_fresh) == alone2, lambda: b2_fresh.decode("latin-1")]}
+    twice = {"w1 after w1 of a variant, in a fresh process": [not with_history or res[0][1] == alone1, lambda: fresh_runs(ms, [history], text=True)[0][1]],
+             "w1 in this process": [sha(b1) == alone1, lambda: b1.decode("latin-1")],
+             "w1 of a fresh copy in this process": [sha(b1_again) == alone1, lambda: b1_again.decode("latin-1")]}
+    r = {"unchanged": before == after, "second_same": b2 == b2_fresh and all(v[0] for v in across.values()),
+         "twice_same": b1 == b1_again and all(v[0] for v in twice.values()), "decode_same": dec_before == dec_after and ctx_before == ctx_after}
+    differ = [(k, v[1], w) for w, grp in ((c["w2"], across), (c["w1"], twice)) for k, v in grp.items() if not v[0]]
+    if differ:
+        r["differs_from_the_export_made_alone_in_a_fresh_process"] = sorted(k for k, _, _ in differ)
+        k, text, w = differ[0]
+        r["first_difference"] = dict(first_difference(fresh_runs(ms, [[[0, w]]], text=True)[0][0], text()) or {}, of=k)
     if ctx_before != ctx_after:
         r["process_state"] = [str(ctx_before), str(ctx_after)]
     if not r["unchanged"]:
@@ -378,6 +525,17 @@ def features(case, impl):
             yield "definitions under the writers' own names"
         if "\\u00" in json.dumps(m):
             yield "texts outside ASCII"
+        numbers = [sg[k] for f in m["frames"] for sg in f["signals"] for k in ("factor", "offset", "min", "max") if sg.get(k) is not None]
+        if len({decimal.Decimal(x) for x in numbers}) < len(set(numbers)):
+            yield "one number in several spellings"
+        for f in m["frames"]:
+            mv = [sg["mux"] for sg in f["signals"] if isinstance(sg.get("mux"), int)]
+            if mv != sorted(mv) or (mv and f["signals"][0].get("mux") != "Multiplexor"):
+                yield "multiplexed signals not listed by multiplexer value"
+                break
+        if any(m.get("sections") or []):
+            yield "frames in sym's SEND / RECEIVE sections"
+        yield "own history in a fresh process" if case["c"].get("hist", True) else "compared with exports made alone in fresh processes"
     elif "orders" in case["c"]:
         yield "export histories differ between the processes"
 
